@@ -252,6 +252,30 @@ pub fn coset_table(
         }
     }
 
+    // Deductions made while scanning are not themselves followed by relator
+    // scans above, so coincidences can be missed. Close the complete table
+    // under all relators at all rows (and the subgroup generators at row 0).
+    loop {
+        let mut changed = false;
+
+        for i in 0..table.len() {
+            let extra = if i == 0 { &subgroup_gens[..] } else { &[] };
+
+            for w in rels.iter().chain(extra.iter()) {
+                let c = table.canon(i);
+                let (head, tail, gap, _) = scan_both_ways(&table, w, c);
+                if gap == 0 && head != tail {
+                    table.merge(head, tail);
+                    changed = true;
+                }
+            }
+        }
+
+        if !changed {
+            break;
+        }
+    }
+
     table.compact()
 }
 
